@@ -23,6 +23,14 @@ type OpC10 struct {
 	SamePTS bool   `json:"same_pts,omitempty"` // reuse the previous signal time instead of advancing
 	Decoded bool   `json:"decoded,omitempty"`  // build the descriptor by decoding a reference encoding
 	Idx     int    `json:"idx,omitempty"`      // close: which previously seen descriptor (mod count); -1 = a fresh one
+	// sub-segment fields (types 0x34/0x36 only)
+	HasSub bool `json:"has_sub,omitempty"`
+	SubNum byte `json:"sub_num,omitempty"`
+	SubExp byte `json:"sub_exp,omitempty"`
+	// VSS: the descriptor carries a multiple-UPID list shaped like a stream-switch signal (delivery restricted):
+	// 1 ADI "BLACKOUT:<id>" + ADS licenserotation, 2 ADI is the bare keyword, 3 keyword inside other text, 4 two entries of other types, 5 one entry only
+	VSS   int `json:"vss,omitempty"`
+	VSSId int `json:"vss_id,omitempty"`
 }
 
 type CaseC10 struct {
@@ -54,6 +62,15 @@ func genC10Op(t *rapid.T) OpC10 {
 		o.Exp = byte(rapid.IntRange(0, 2).Draw(t, "exp"))
 		o.SamePTS = rapid.IntRange(0, 3).Draw(t, "same-pts") == 0
 		o.Decoded = rapid.IntRange(0, 3).Draw(t, "decoded") == 0
+		if (o.Type == 0x34 || o.Type == 0x36) && rapid.Bool().Draw(t, "has-sub") {
+			o.HasSub = true
+			o.SubNum = byte(rapid.IntRange(0, 3).Draw(t, "sub-num"))
+			o.SubExp = byte(rapid.IntRange(0, 3).Draw(t, "sub-exp"))
+		}
+		if (o.Type == 0x40 && rapid.Bool().Draw(t, "vss")) || rapid.IntRange(0, 15).Draw(t, "vss-any-type") == 0 {
+			o.VSS = rapid.IntRange(1, 5).Draw(t, "vss-shape")
+			o.VSSId = rapid.IntRange(0, 2).Draw(t, "vss-id")
+		}
 	}
 	if o.Kind == "close" {
 		o.Idx = rapid.IntRange(-1, 12).Draw(t, "idx")
@@ -79,6 +96,27 @@ type c10Desc struct {
 func c10Make(o OpC10, pts uint64, hasPTS bool) (*c10Desc, *hx.Failure) {
 	abs := DescC19{Type: o.Type, Event: o.Event, HasPTS: hasPTS, PTS: pts, Num: o.Num, Exp: o.Exp, Decoded: o.Decoded,
 		Rest: ref.SpliceDesc{Prog: true, NotRestricted: true, UPID: ref.Hex{}, MID: []ref.SegUPID{}, Comps: []ref.SegOffset{}}}
+	if o.HasSub && (o.Type == 0x34 || o.Type == 0x36) {
+		abs.HasSub, abs.SubNum, abs.SubExp = true, o.SubNum, o.SubExp
+	}
+	if o.VSS != 0 {
+		abs.Rest.NotRestricted = false
+		abs.Rest.UPIDType = 0x0D
+		id := fmt.Sprintf("sig-%d", o.VSSId)
+		ads := ref.SegUPID{Type: 0x0E, Body: ref.Hex("comcast:linear:licenserotation")}
+		switch o.VSS {
+		case 1:
+			abs.Rest.MID = []ref.SegUPID{{Type: 0x09, Body: ref.Hex("BLACKOUT:" + id)}, ads}
+		case 2:
+			abs.Rest.MID = []ref.SegUPID{{Type: 0x09, Body: ref.Hex("BLACKOUT")}, ads}
+		case 3:
+			abs.Rest.MID = []ref.SegUPID{{Type: 0x09, Body: ref.Hex("x" + id + "-BLACKOUT")}, ads}
+		case 4:
+			abs.Rest.MID = []ref.SegUPID{{Type: 0x08, Body: ref.Hex("BLACKOUT:" + id)}, {Type: 0x0C, Body: ref.Hex("comcast:linear:licenserotation")}}
+		default:
+			abs.Rest.MID = []ref.SegUPID{{Type: 0x09, Body: ref.Hex("BLACKOUT:" + id)}}
+		}
+	}
 	obj, f := c19Build(&abs)
 	if f != nil {
 		return nil, f
